@@ -5,6 +5,7 @@ package gohlslib
 // C20: direct drive of the real clientSegmentQueue under the controlled scheduler (engine E2).
 
 import (
+	"bytes"
 	"context"
 	"encoding/json"
 	"fmt"
@@ -191,6 +192,9 @@ func c20Harness(sc c20Scen) vsched.Harness {
 			st := sti.(*c20State)
 			var viols []vsched.Viol
 			add := func(sig, msg string) { viols = append(viols, vsched.Viol{Sig: sig, Msg: msg}) }
+			if tr.Livelock != "" {
+				add("livelock", tr.Livelock)
+			}
 			for _, p := range tr.Panics {
 				add("panic", p)
 			}
@@ -400,7 +404,12 @@ func c20EndToEnd(c *vh.Ctx) {
 	var cont, tracks string
 	fmt.Sscanf(c.Scenario, "e2e look-ahead %s %s", &cont, &tracks)
 	for _, nseg := range []int{6, 9, 14} {
-		for _, vod := range []bool{true, false} {
+		hinted := -2
+		for _, vod := range []bool{true, false, false, false} {
+			// third and fourth live runs: the media playlists carry Low-Latency tags that do not make the stream a
+			// Low-Latency one - EXT-X-SERVER-CONTROL without CAN-BLOCK-RELOAD=YES plus a preload hint, or CAN-BLOCK-RELOAD=YES
+			// without a preload hint; the bound of the non-Low-Latency modes applies and no part is ever requested
+			hinted++
 			cs := c10Case{Container: cont, Tracks: tracks, Frags: 1, PDT: true, VOD: vod, NSeg: nseg}
 			st, err := c10Build(cs)
 			if err != nil {
@@ -414,6 +423,7 @@ func c20EndToEnd(c *vh.Ctx) {
 			var worst look
 			var mu sync.Mutex
 			downloaded := 0
+			hintReqs := 0
 			srv.handler = func(n int, path, rawQuery string, req *http.Request) srvResp {
 				name := path[strings.LastIndexByte(path, '/')+1:]
 				if strings.HasPrefix(name, "r0_seg") {
@@ -426,7 +436,31 @@ func c20EndToEnd(c *vh.Ctx) {
 					}
 					mu.Unlock()
 				}
-				return inner(n, path, rawQuery, req)
+				if strings.HasPrefix(name, "hint") {
+					mu.Lock()
+					hintReqs++
+					mu.Unlock()
+				}
+				resp := inner(n, path, rawQuery, req)
+				if hinted > 0 && strings.HasSuffix(name, ".m3u8") && bytes.Contains(resp.Body, []byte("#EXTINF")) {
+					ctl := "#EXT-X-SERVER-CONTROL:PART-HOLD-BACK=3.00000\n#EXT-X-PART-INF:PART-TARGET=1.00000\n"
+					tail := "#EXT-X-PRELOAD-HINT:TYPE=PART,URI=\"hint_" + strings.TrimSuffix(name, ".m3u8") + ".bin\"\n"
+					if hinted == 2 {
+						ctl = "#EXT-X-SERVER-CONTROL:CAN-BLOCK-RELOAD=YES,PART-HOLD-BACK=3.00000\n#EXT-X-PART-INF:PART-TARGET=1.00000\n"
+						tail = ""
+					}
+					body := strings.Replace(string(resp.Body), "#EXT-X-TARGETDURATION", ctl+"#EXT-X-TARGETDURATION", 1)
+					if !strings.HasSuffix(body, "\n") {
+						body += "\n"
+					}
+					if strings.Contains(body, "#EXT-X-ENDLIST") {
+						body = strings.Replace(body, "#EXT-X-ENDLIST", tail+"#EXT-X-ENDLIST", 1)
+					} else {
+						body += tail
+					}
+					resp.Body = []byte(body)
+				}
+				return resp
 			}
 			uri := "http://media.example/vod/r0.m3u8"
 			if len(st.rends) > 1 {
@@ -434,7 +468,10 @@ func c20EndToEnd(c *vh.Ctx) {
 			}
 			obs := runClientPlain(c.T, uri, srv, cliOpts{Progress: &progress})
 			c.Exec()
-			outcome := fmt.Sprintf("%s nseg=%d vod=%v worst look-ahead=%d end=%s", c.Scenario, nseg, vod, worst.downloaded-worst.delivered, c11Class(obs.WaitErr))
+			outcome := fmt.Sprintf("%s nseg=%d vod=%v tags=%d worst look-ahead=%d end=%s", c.Scenario, nseg, vod, hinted, worst.downloaded-worst.delivered, c11Class(obs.WaitErr))
+			if hintReqs > 0 {
+				c.Violation("e2e/part-requested-outside-low-latency", fmt.Sprintf("the preload hint of a playlist that does not advertise CAN-BLOCK-RELOAD=YES was requested %d times (%s nseg=%d tags=%d): the stream is read in Low-Latency mode, where the look-ahead bound of the non-Low-Latency modes does not hold", hintReqs, c.Scenario, nseg, hinted), nil)
+			}
 			c.Outcome(outcome)
 			c.Sample(map[string]any{"scenario": c.Scenario, "segments": nseg, "vod": vod, "worst_lookahead": worst.downloaded - worst.delivered, "end": c11Class(obs.WaitErr)})
 			if len(obs.Panics) > 0 {
